@@ -12,6 +12,7 @@ import (
 	"github.com/klev-dev/klevdb/pkg/index"
 	"github.com/klev-dev/klevdb/pkg/message"
 	"github.com/klev-dev/klevdb/pkg/segment"
+	"github.com/klev-dev/klevdb/pkg/vhook"
 )
 
 type reader struct {
@@ -109,6 +110,7 @@ func (r *reader) Consume(offset, maxCount int64) (int64, []message.Message, erro
 		return nextOffset, nil, nil
 	}
 
+	vhook.Pause("consume.indexed")
 	messages, err := r.getMessages()
 	if err != nil {
 		return OffsetInvalid, nil, err
@@ -389,6 +391,7 @@ func (r *reader) GC(unusedFor time.Duration) error {
 		// only unload segments unused for defined time
 		return nil
 	}
+	vhook.Pause("gc.unload")
 
 	r.closeIndex()
 
